@@ -150,6 +150,8 @@ class ListWrapper(typing.MutableSequence[T]):
         if isinstance(i, slice):
             indices = range(*i.indices(len(self)))
         else:
+            # (any object with __index__ is an index, as it is for list)
+            i = operator.index(i)
             indices = range(i, i + 1)
         for index in indices:
             self._remove(self._data[index])
@@ -185,6 +187,11 @@ class ListWrapper(typing.MutableSequence[T]):
 
     def remove(self, v: T) -> None:
         del self[self._data.index(v)]
+
+    def index(self, value: typing.Any, *args: typing.Any) -> int:
+        # (the Sequence mixin compares start and stop with <, list converts
+        # them with __index__)
+        return self._data.index(value, *args)
 
     # extend is not in every version of Python 3, so list wrapper adds it here
     # itself.
